@@ -41,8 +41,21 @@ def names_cases(add):
             add(t, pts=[gen.q(3), gen.q(0)], mode="number")
 
 
+REPLAY = None      # set by replay(): the single case of a recorded violation
+
+
+def replay(pid, path):
+    """re-execute exactly the recorded case on the current tree and re-judge it with TLC"""
+    global REPLAY
+    v = json.load(open(path))["case"]
+    REPLAY = [{"tree": v["tree"], "share": bool(v.get("shared")), "mode": v.get("mode", "point"), "pts": [v["point"]]}]
+    return run(pid, "quick", 0)
+
+
 def cases_for(pid, tier, seed):
     """list of cases: dict(tree, share, mode, pts)"""
+    if REPLAY is not None:
+        return [dict(c) for c in REPLAY]
     rnd = random.Random(1000 + seed)
     G = gen.GQ if tier == "quick" else gen.GT
     cases = []
@@ -277,7 +290,7 @@ def run(pid, tier, seed, src_note=None):
                        "irrational / out-of-guard cases ('fl') are judged by harness/specval.py, cross-checked by TLC on every exact case",
                        "IEEE-754 double arithmetic and libm of this platform"]
     extra = {}
-    if pid == "C14":
+    if pid == "C14" and REPLAY is None:
         # the derivative clauses of C14 (never CoordinateMissing when the expression's variables are supplied, also when the
         # differentiation variable is absent; Derivative accepts exactly the expressions with <= 1 variable): engine E-diff
         import eng_diff
